@@ -351,4 +351,171 @@ theorem parseBody_counts (rc : Str → Option Rat) (lines : List Str) (b : List 
     · simp at h0
     · exact h1
 
+/-! ### From the lines to the text: `"\n".join` / `split("\n")`, and no line of the model contains a newline -/
+
+theorem splitLines_noNl : ∀ a : Str, '\n' ∉ a → splitLines a = [a]
+  | [], _ => rfl
+  | c :: t, h => by
+    have hc : c ≠ '\n' := fun e => h (by simp [e])
+    have ih := splitLines_noNl t fun e => h (List.mem_cons_of_mem _ e)
+    simp [splitLines, hc, ih]
+
+theorem splitLines_append : ∀ (a rest : Str), '\n' ∉ a → splitLines (a ++ '\n' :: rest) = a :: splitLines rest
+  | [], rest, _ => by simp [splitLines]
+  | c :: t, rest, h => by
+    have hc : c ≠ '\n' := fun e => h (by simp [e])
+    have ih := splitLines_append t rest fun e => h (List.mem_cons_of_mem _ e)
+    simp [splitLines, hc, ih]
+
+theorem splitLines_joinLines : ∀ ls : List Str, ls ≠ [] → (∀ l ∈ ls, '\n' ∉ l) → splitLines (joinLines ls) = ls
+  | [], h, _ => absurd rfl h
+  | [a], _, h => by simpa [joinLines] using splitLines_noNl a (h a (by simp))
+  | a :: b :: t, _, h => by
+    have ih := splitLines_joinLines (b :: t) (by simp) fun l hl => h l (List.mem_cons_of_mem _ hl)
+    simp only [joinLines]
+    rw [splitLines_append a _ (h a (by simp)), ih]
+
+theorem mem_joinWith (sep : Str) : ∀ (ls : List Str) (c : Char), c ∈ joinWith sep ls → c ∈ sep ∨ ∃ l ∈ ls, c ∈ l
+  | [], c, h => by simp [joinWith] at h
+  | [a], c, h => .inr ⟨a, by simp, by simpa [joinWith] using h⟩
+  | a :: b :: t, c, h => by
+    simp only [joinWith, List.mem_append] at h
+    rcases h with (h | h) | h
+    · exact .inr ⟨a, by simp, h⟩
+    · exact .inl h
+    · rcases mem_joinWith sep (b :: t) c h with h | ⟨l, hl, hc⟩
+      · exact .inl h
+      · exact .inr ⟨l, List.mem_cons_of_mem _ hl, hc⟩
+
+theorem mem_wrapLines (W : Nat) (hW : 1 ≤ W) (s : Str) (hh : ∀ x t, s = x :: t → x ≠ ' ') (l : Str)
+    (hl : l ∈ wrapLines W 3 s) (c : Char) (hc : c ∈ l) : c = ' ' ∨ c ∈ s := by
+  have hsp := wrapContents_spdel W 3 hW s hh
+  unfold wrapLines at hl
+  cases hw : wrapContents W 3 s with
+  | nil => rw [hw] at hl; simp at hl
+  | cons l0 r =>
+    rw [hw] at hl hsp
+    simp only [List.mem_cons] at hl
+    rcases hl with rfl | hl
+    · simp only [List.mem_append, List.mem_replicate] at hc
+      rcases hc with ⟨_, rfl⟩ | hc
+      · exact .inl rfl
+      · exact .inr (hsp.mem c (by simp [hc]))
+    · exact .inr (hsp.mem c (List.mem_flatten.mpr ⟨l, List.mem_cons_of_mem _ hl, hc⟩))
+
+theorem enum_no_nl (W : Nat) (hW : 1 ≤ W) (s : Str) (hh : ∀ x t, s = x :: t → x ≠ ' ') (hs : '\n' ∉ s) :
+    '\n' ∉ enumerationToTxt W imported s := by
+  have hline : ∀ l ∈ wrapLines W 3 s, '\n' ∉ l := fun l hl hcl => by
+    rcases mem_wrapLines W hW s hh l hl _ hcl with h | h
+    · exact absurd h (by decide)
+    · exact hs h
+  unfold enumerationToTxt
+  split
+  · simp [imported_eq]
+  · split
+    · exact hs
+    · intro hc
+      simp only [List.mem_append] at hc
+      rcases hc with (((h | h) | h) | h) | h
+      · simp [tagOpen_eq] at h
+      · have h' := List.mem_of_mem_drop h
+        cases hl : wrapLines W 3 s with
+        | nil => rw [hl] at h'; simp at h'
+        | cons a t => rw [hl] at h'; exact hline a (by rw [hl]; simp) (by simpa using h')
+      · simp [tagMid_eq] at h
+      · rcases mem_joinWith _ _ _ h with h | ⟨l, hl, hc⟩
+        · simp [tagBr_eq] at h
+        · exact hline l (List.mem_of_mem_tail hl) hc
+      · simp [tagClose_eq] at h
+
+theorem renderCell_no_nl (W : Nat) (hW : 1 ≤ W) (spans : List Span) (hn : ∀ sp ∈ spans, 0 ≤ sp.1 ∧ 0 ≤ sp.2) :
+    '\n' ∉ renderCell W spans := by
+  rw [← toSpan_of_nonneg spans hn]
+  unfold renderCell
+  refine enum_no_nl W hW _ (fun x t e => (wordCh_ne x (join_head _ x t e)).1) ?_
+  intro h
+  rcases join_chars _ _ h with h | h | h
+  · revert h; decide
+  · exact absurd h (by decide)
+  · exact absurd h (by decide)
+
+theorem costChar_ne_nl (x : Char) (h : costChar x = true) : x ≠ '\n' := by
+  intro e; subst e; revert h; decide
+
+theorem chars_no_nl (t : Codes) (h : ∀ n ∈ t, n.isValidChar ∧ n ≠ 10) : '\n' ∉ chars t := by
+  intro hc
+  simp only [chars, List.mem_map] at hc
+  obtain ⟨n, hn, e⟩ := hc
+  have := congrArg Char.toNat e
+  simp [Char.ofNat, (h n hn).1, Char.ofNatAux, Char.toNat] at this
+  exact (h n hn).2 this
+
+theorem nat_no_nl (n : Nat) : '\n' ∉ nat n := fun h => by
+  have := nat_digits n _ h
+  revert this; decide
+
+theorem bucketText_no_nl (b : Bucket) : '\n' ∉ bucketText b := by
+  cases b with
+  | pow lo =>
+    simp only [bucketText, List.mem_append, not_or]
+    exact ⟨by decide, nat_no_nl lo, ⟨by decide, nat_no_nl _⟩, by decide⟩
+  | zero => decide
+  | q1 => decide
+  | q2 => decide
+  | q3 => decide
+  | noGroup => decide
+
+theorem headingLine_no_nl (b : Bucket) (n : Nat) : '\n' ∉ headingLine b n := by
+  simp only [headingLine, List.mem_append, not_or]
+  refine ⟨by decide, nat_no_nl n, ⟨⟨by decide, ?_⟩, by decide⟩, bucketText_no_nl b⟩
+  unfold plural; split <;> decide
+
+theorem renderBody_no_nl (sc : Rat → Str) (src : Codes → Rat → Str) (rc : Str → Option Rat) (w : Nat) (hw : 0 < w)
+    (b : List (Bucket × List Section)) (hb : okBody b = true) (hc : costsOK sc src rc b = true) :
+    ∀ l ∈ renderBody sc src w b, '\n' ∉ l := by
+  intro l hl
+  simp only [renderBody, List.mem_flatMap] at hl
+  obtain ⟨g, hg, hl⟩ := hl
+  simp only [renderBucket, List.mem_cons, List.mem_flatMap] at hl
+  rcases hl with rfl | rfl | ⟨sec, hsec, hl⟩
+  · simp
+  · exact headingLine_no_nl _ _
+  · obtain ⟨hp, hcost, hrows⟩ := secOK_of sc src rc b hb hc g hg sec hsec
+    simp only [renderSection, List.mem_cons, List.mem_append, List.mem_map, List.not_mem_nil, or_false] at hl
+    have hpath : ∀ n ∈ sec.path, n.isValidChar ∧ n ≠ 10 := by
+      intro n hn
+      have := List.all_eq_true.mp hp n hn
+      simpa using this
+    rcases hl with rfl | rfl | rfl | rfl | rfl | ⟨r, hr, rfl⟩ | rfl | rfl
+    · simp
+    · simp only [titleLine, List.mem_append, not_or]
+      exact ⟨by decide, chars_no_nl _ hpath, by decide, fun h => costChar_ne_nl _ ((costOKb_spec hcost).1 _ h) rfl, by decide⟩
+    · simp
+    · decide
+    · decide
+    · obtain ⟨hok, hcr⟩ := hrows r hr
+      have htax : ∀ n ∈ r.taxon, n.isValidChar ∧ n ≠ 10 := by
+        intro n hn
+        simp only [okRow, okTaxon, Bool.and_eq_true, List.all_eq_true] at hok
+        have := hok.1 n hn
+        simp only [Bool.and_eq_true, bne_iff_ne, ne_eq, decide_eq_true_eq] at this
+        exact ⟨this.1.1, this.2⟩
+      simp only [rowLine, List.mem_append, not_or]
+      exact ⟨by decide, fun h => costChar_ne_nl _ ((costOKb_spec hcr).1 _ h) rfl, by decide, chars_no_nl _ htax, by decide,
+        renderCell_no_nl w hw r.spans (okRow_spans r hok), by decide⟩
+    · simp
+    · decide
+
+theorem parse_render_text (sc : Rat → Str) (src : Codes → Rat → Str) (rc : Str → Option Rat) (w : Nat) (hw : 0 < w)
+    (b : List (Bucket × List Section)) (hb : okBody b = true) (hc : costsOK sc src rc b = true) :
+    parseBody rc (splitLines (joinLines (renderBody sc src w b))) = some b := by
+  cases hne : renderBody sc src w b with
+  | nil =>
+    cases b with
+    | nil => simp [joinLines, splitLines, parseBody, step, classify_blank]
+    | cons g t => simp [renderBody, renderBucket] at hne
+  | cons l r =>
+    rw [← hne, splitLines_joinLines _ (by simp [hne]) (renderBody_no_nl sc src rc w hw b hb hc)]
+    exact parse_render_body sc src rc w hw b hb hc
+
 end Paroxy.ReportText
